@@ -15,12 +15,14 @@ func init() {
 			ID: "C04", Title: "Loc-RIB clients hold exactly the selected paths they asked for", Level: "other",
 			Technique:   "must-pass-through on go/cfg (mutation → selection → propagation, snapshot before mutation), def-use provenance of the per-client limits and diff operands, guard table of the inlined limit computation, who-may-call for client notifications",
 			DesignRef:   "DESIGN.md §4 C04",
-			Decided:     "(1) every Loc-RIB mutation entry (AddPath, RemovePath, ReplacePath) takes the OLD route copy before the table mutation, runs PathSelection after it, takes/uses the NEW route after selection and reaches propagateChanges on every non-error exit; (2) propagateChanges withdraws before it announces; (3) in the two diff functions the limit applied to a route's path list is computed from THAT route's equal-cost count and length only, the withdrawn set is diff(old top-N, new top-N) and the announced set diff(new top-N, old top-N), and the paths handed to RemovePath/AddPath are the elements of those sets; (4) the limit inlined in UpdateNewClient/RefreshClient follows the same option table as ClientOptions.GetMaxPaths (best-only → 1, ecmp-only → the route's equal-cost count, else MaxPaths bounded by the number of paths); the initial dump hands out copies and ends with EndOfRIB; (5) client notifications in package locRIB are issued only from these functions and Dispose.",
+			Decided:     "(1) every Loc-RIB mutation entry (AddPath, RemovePath, ReplacePath) takes the OLD route copy before the table mutation, runs PathSelection after it, takes/uses the NEW route after selection and reaches propagateChanges on every non-error exit; (2) propagateChanges withdraws before it announces; (3) in the two diff functions the limit applied to a route's path list is computed from THAT route's equal-cost count and length only, the withdrawn set is diff(old top-N, new top-N) and the announced set diff(new top-N, old top-N), and the paths handed to RemovePath/AddPath are the elements of those sets; (4) the limit inlined in UpdateNewClient/RefreshClient follows the same option table as ClientOptions.GetMaxPaths (best-only → 1, ecmp-only → the route's equal-cost count, else MaxPaths bounded by the number of paths); the initial dump hands out copies and ends with EndOfRIB; (5) client notifications in package locRIB are issued only from these functions and Dispose. (+) the membership test behind route.PathsDiff relates two paths only by pointer identity or the full-content relation Path.Compare, never by a coarser relation (Equal/Select/ECMP).",
 			NotDecided:  "equality of the accumulated client view with the selection at every quiescent point over all histories and registration interleavings (history/schedule-quantified); the min() arithmetic itself.",
 			TrustedBase: stdTrusted,
 		},
 		Run: runC04,
 		Controls: []Control{
+			{Name: "diff-by-selection-equality", File: "route/path.go", Old: "\t\tif p == needle {\n", New: "\t\tif p == needle || p.Equal(needle) {\n", Expect: "diff-membership-is-identity"},
+			{Name: "refactor-diff-operands-swapped", Silent: true, File: "route/path.go", Old: "\t\tif p == needle {\n", New: "\t\tif needle == p {\n"},
 			{Name: "withdraw-limit-from-wrong-route", File: "routingtable/locRIB/loc_rib.go", Old: "\t\tnewPathsLimit := int(math.Min(int(newMaxPaths), len(newRoute.Paths())))\n\n\t\twithdraw", New: "\t\tnewPathsLimit := int(math.Min(int(oldMaxPaths), len(newRoute.Paths())))\n\t\t_ = newMaxPaths\n\n\t\twithdraw", Expect: "limit-from-own-route"},
 			{Name: "announce-before-withdraw", File: "routingtable/locRIB/loc_rib.go", Old: "\ta.removePathsFromClients(oldRoute, newRoute)\n\ta.addPathsToClients(oldRoute, newRoute)", New: "\ta.addPathsToClients(oldRoute, newRoute)\n\ta.removePathsFromClients(oldRoute, newRoute)", Expect: "withdraw-before-announce"},
 			{Name: "old-copy-after-mutation", File: "routingtable/locRIB/loc_rib.go", Old: "\toldRoute := r.Copy()\n\terr := r.ReplacePath(oldPath, newPath)", New: "\terr := r.ReplacePath(oldPath, newPath)\n\toldRoute := r.Copy()", Expect: "snapshot-select-propagate"},
@@ -33,6 +35,7 @@ const locPkg = "routingtable/locRIB"
 
 func runC04(c *core.Ctx) {
 	p := c.P
+	diffMembership(c)
 	sel := p.Func("route.(*Route).PathSelection")
 	prop := p.Func(locPkg + ".(*LocRIB).propagateChanges")
 	cp := p.Func("route.(*Route).Copy")
